@@ -89,7 +89,7 @@ def s_hex_of_bits(E, a, k):
                 upper.append(bool(b) if isinstance(b, int) else B.to_z3(b))
     if n == 0:
         return ""
-    return SHex(cells, upper)
+    return V.shex_or_str(cells, upper)
 
 
 def s_ufun(E, a, k):
@@ -132,7 +132,7 @@ def s_new_object(E, a, k):
 
 def members():
     m = {}
-    for n in ("BinStr", "HexStr", "IntRange", "RealRange", "Bool", "Choice"):
+    for n in ("BinStr", "HexStr", "IntRange", "RealRange", "RealVec", "Bool", "Choice"):
         m[n] = Builtin(n, _noop_domain)
     m["harness"] = Builtin("harness", _decorator_factory)
     m["property_level"] = Builtin("property_level", _noop_domain)
